@@ -272,6 +272,32 @@ class FakeServant(tcps.Server):
         return True
 
 
+class FakeTlsContext:
+    """Stands in for ssl.SSLContext on the server side: 'wrapping' a fake socket just marks it as TLS; its handshake then
+    follows the socket's hs_script."""
+    verify_mode = ssl.CERT_NONE
+
+    def wrap_socket(self, sock, server_side=True, do_handshake_on_connect=False, **kwa):
+        sock.tls = True
+        return sock
+
+
+class FakeServantTls(tcps.ServerTls):
+    """tcp.ServerTls whose accepts come from the harness; serviceAxes / serviceCxes / RemoterTls are the real code."""
+
+    def __init__(self, **kwa):
+        kwa.setdefault("ha", ("127.0.0.1", 8080))
+        kwa.setdefault("context", FakeTlsContext())
+        super().__init__(**kwa)
+        self.pending = []
+        self.opened = True
+
+    serviceAccepts = FakeServant.serviceAccepts
+    connect = FakeServant.connect
+    open = FakeServant.open
+    reopen = FakeServant.reopen
+
+
 class FakeConnector(tcpc.Client):
     """tcp.Client that 'connects' to a harness-side fake socket from a registry keyed by (host, port)."""
     registry = {}      # (host, port) -> callable returning the client-side fake socket, or None (refuse)
